@@ -45,6 +45,65 @@ def gen_scenario_shell(rng):
     return s
 
 
+CSH, EUPS_PATH_FORMS, MS_CLI = 40, 30, 30       # quick-tier sizes of the families added in round 6
+UNNORMALISED = ["@STACK@/", "@STACK@:/nonexistent/stack", "@STACK@:@STACK@", "@STACK@/./", ":@STACK@", "@STACK@//:/nonexistent"]
+
+
+def gen_scenario_csh(rng):
+    """gen_scenario_shell for a user of the csh family: EUPS_SHELL names csh / tcsh (by name or by path), the command list
+    speaks setenv / unsetenv / alias / unalias; most closures have a table with addAlias"""
+    s = gen_scenario_shell(rng)
+    s["env0"]["EUPS_SHELL"] = rng.choice(["csh", "tcsh", "/bin/tcsh", "/usr/bin/csh"])
+    for name, vs in s["world"]["products"].items():
+        for v, lines in vs.items():
+            if not any(l.startswith("addAlias") for l in lines) and rng.random() < 0.5:
+                lines.insert(rng.randrange(len(lines) + 1), "addAlias(run_%s, echo %s %s)" % (name, name, v))
+    s["world"]["family"] = "csh-command-list"
+    return s
+
+
+def gen_scenario_eups_path(rng):
+    """gen_scenario_shell with EUPS_PATH as users write it - a trailing slash, an entry that is no directory, an entry
+    twice, an empty entry: the Eups constructor rewrites os.environ[EUPS_PATH] for itself; the user's shell must keep
+    the value it had (now and then for a csh user)"""
+    s = gen_scenario_shell(rng)
+    s["env0"]["EUPS_PATH"] = rng.choice(UNNORMALISED)
+    if rng.random() < 0.2:
+        s["env0"]["EUPS_SHELL"] = "tcsh"
+    if rng.random() < 0.6:
+        # through the python interface that returns the command list (Eups object, then eups.app.setup) instead of setupcmd
+        for q in s["requests"]:
+            del q["cli"]
+            q["api"] = True
+    s["world"]["family"] = "un-normalised-EUPS_PATH"
+    return s
+
+
+def gen_scenario_ms_cli(rng):
+    """two stacks on EUPS_PATH, setup X with -Z / -z (some of the stacks selected) and unsetup X, BOTH through the
+    command-line front end: the two command lists are what the shell sources; EUPS_PATH sometimes un-normalised too"""
+    s = S.gen_scenario_ms(rng, "inverse")
+    first, second = s["requests"]
+    n = len(s["world"]["stacks"])
+    if first.get("Z") is None and not first.get("z"):
+        r = rng.random()
+        if r < 0.4:
+            first["Z"] = [rng.randrange(n)]
+        elif r < 0.6:
+            first["Z"] = list(reversed(range(n)))
+        else:
+            import os
+            first["z"] = os.path.basename(s["world"]["stacks"][rng.randrange(n)]["root"])
+    first.pop("cli", None)
+    second.pop("cli", None)
+    mode = "api" if rng.random() < 0.6 else "cli"       # eups.app.setup on an Eups(path=, dbz=) object / setupcmd
+    first[mode] = second[mode] = True
+    if rng.random() < 0.3:
+        s["env0"]["EUPS_PATH"] = rng.choice(["@STACK0@/:@STACK1@", "@STACK0@:/nonexistent:@STACK1@", "@STACK0@:@STACK1@:@STACK0@"])
+    s["world"]["family"] = "ms-command-lists"
+    return s
+
+
 def contrib(name, rng=None):
     up = name.upper()
     out = ["envPrepend(PATH, ${PRODUCT_DIR}/bin)", "envAppend(LD_LIBRARY_PATH, ${PRODUCT_DIR}/lib)",
@@ -128,12 +187,47 @@ def shell_oracle(ctx, case, r1, r2, norm, strip=lambda x: x):
     if r1.get("cmds") is None or r2.get("cmds") is None:
         return
     ctx.bump("command-lists-sourced-by-a-shell")
+    import re
+    csh = bool(re.search(r"(^|/)(csh|tcsh)$", r1["before"].get("EUPS_SHELL", "sh")))
     funcs = {}
-    sh1 = S.shell_apply(r1["cmds"], r1["before"], funcs)
-    sh2 = S.shell_apply(r2["cmds"], sh1, funcs) if sh1 is not None else None
+    apply_ = S.csh_apply if csh else S.shell_apply
+    sh1 = apply_(r1["cmds"], r1["before"], funcs)
+    defined = dict(funcs)
+    sh2 = apply_(r2["cmds"], sh1, funcs) if sh1 is not None else None
     if sh2 is None:
-        ctx.fail("command-list-unreadable", case, expected="export N=V / unset N / unset -f N / name() { ... ; }",
+        ctx.fail("command-list-unreadable", case, expected="setenv N V / unsetenv N / alias N 'body' / unalias N" if csh else
+                 "export N=V / unset N / unset -f N / name() { ... ; }",
                  observed=strip((r1["cmds"] if sh1 is None else r2["cmds"])[-600:]), what="a command of the list is of no known form")
+        return
+    if csh:
+        ctx.bump("command-lists-sourced-by-a-shell:csh-dialect")
+        if defined:
+            ctx.bump("command-lists-sourced-by-a-shell:csh-dialect-with-aliases")
+    # the stacks the user listed: Eups.__init__ rewrites os.environ[EUPS_PATH] for its own use (the stacks -Z / -z select,
+    # normalised); the shell that sources the two lists must have EUPS_PATH as it was
+    pa, pb = [x for x in S.uniq_list(r1["before"].get("EUPS_PATH", "").split(":")) if x], \
+             [x for x in S.uniq_list(sh2.get("EUPS_PATH", "").split(":")) if x]
+    if r1["before"].get("EUPS_PATH") != ":".join(pa) or r1["request"].get("Z") is not None or r1["request"].get("z"):
+        ctx.bump("command-lists-sourced-by-a-shell:the-constructor-rewrites-EUPS_PATH")
+    if pa != pb:
+        ctx.fail("shell-not-restored", case, expected=strip({"EUPS_PATH": r1["before"].get("EUPS_PATH")}),
+                 observed=strip({"EUPS_PATH": sh2.get("EUPS_PATH")}),
+                 what="a shell that sources the command lists of setup and of unsetup of %s ends with EUPS_PATH=%s; it was %s" % (
+                     r1["request"]["name"], strip(sh2.get("EUPS_PATH")), strip(r1["before"].get("EUPS_PATH"))))
+        return
+    if csh:
+        # (the shell fragment of coq/Model/SetupCmds.v is the sh dialect: a csh list is read by the harness only)
+        a, b = norm(r1["before"]), norm(sh2)
+        if a != b:
+            diff = {k: (a.get(k), b.get(k)) for k in set(a) | set(b) if a.get(k) != b.get(k)}
+            ctx.fail("shell-not-restored", case, expected=strip({k: v[0] for k, v in diff.items()}),
+                     observed=strip({k: v[1] for k, v in diff.items()}),
+                     what="a csh that sources the command lists of setup and of unsetup of %s ends with %r" % (r1["request"]["name"], strip(diff)))
+            return
+        if funcs:
+            ctx.fail("alias-left", case, expected={}, observed=funcs,
+                     what="the csh that sourced the two command lists still has the aliases %r (variables and aliases are "
+                          "separate name spaces: unsetenv does not remove an alias)" % sorted(funcs))
         return
     # the same shell on the model side (coq/Model/SetupCmds.v shell_after: the emitter and the shell fragment of C05 applied
     # to the three environments of the real run): its environment is the one the real command lists leave
@@ -289,7 +383,12 @@ def run(ctx):
                 "and the shell's final environment compared with the one before; tables whose values refer to other "
                 "variables (a dependency's directory variable; list-valued variables of the user's environment: "
                 "envAppend(PLUGIN_PATH, ${SITE_DIRS_P3}, ;) with SITE_DIRS_P3=/site/p3/a;/site/p3/b); worlds of two stacks "
-                "(random and directed); names in a prefix relation and -j lines; non-trivial = the setup "
+                "(random and directed); names in a prefix relation and -j lines; command lists in the csh dialect (EUPS_SHELL = csh / "
+                "tcsh: setenv / unsetenv / alias / unalias read by setupsim.csh_apply, variables and aliases in separate "
+                "name spaces, tables with addAlias); EUPS_PATH as users write it (trailing slash, an entry that is no "
+                "directory, an entry twice, an empty entry) and two stacks with -Z / -z, the command lists taken from "
+                "eups.app.setup on an Eups(path=, dbz=) object as well as from setupcmd: EUPS_PATH of the sourcing shell "
+                "must end as it was; non-trivial = the setup "
                 "succeeds and sets up at least two products; distinct = distinct (world, requests, env0)")
     ctx.trusted_base = common.COMMON_TRUSTED + [
         "two model runs per request: Model/Setup.v fed with the decisions of the real resolver (captured by a spy), and "
@@ -308,7 +407,8 @@ def run(ctx):
                        "and the Example dep_variable_after_dependency_refuted = finding D60)",
                        "unsetup_commands_restore_the_shell: cmds_in_claim (the hypotheses of C05's emit_sound at both "
                        "calls; no call removes EUPS_DIR / EUPS_PATH / EUPS_PKGROOT / EUPS_SHELL); alias commands are "
-                       "outside the shell fragment of Model/Shell.v and are read by the harness only",
+                       "outside the shell fragment of Model/Shell.v and are read by the harness only; the csh dialect of the command "
+                       "list is outside Model/SetupCmds.v (sh only): read by setupsim.csh_apply and judged by the oracle alone",
                        "unsetup_inverts_setup: the hypotheses of closure_exact (conflict_free: no product requested in two "
                        "versions; no --max-depth / --just / -j line / keep; wf_db; total order on the version names - for the "
                        "real comparator: fw_real_ok, or fw_conv and db_sorted with the rule read in vcmp_sorted), Inv "
@@ -360,6 +460,16 @@ def run(ctx):
         ctx.bump("family:" + sc["world"].get("family", "shell"))
     for i in range(0, len(extra), 400):
         S.run_scenarios(ctx, extra[i:i + 400], oracle)
+    # round 6.  The command list for a csh / tcsh user (setenv / unsetenv / alias / unalias, read by setupsim.csh_apply:
+    # variables and aliases in separate name spaces); EUPS_PATH as users write it (the constructor's rewrite of
+    # os.environ[EUPS_PATH] is not the shell's business); two stacks with -Z / -z, both requests through the front end
+    r6 = [gen_scenario_csh(ctx.rng) for _ in range(ctx.size(CSH, 600))] + \
+         [gen_scenario_eups_path(ctx.rng) for _ in range(ctx.size(EUPS_PATH_FORMS, 600))]
+    r6ms = [gen_scenario_ms_cli(ctx.rng) for _ in range(ctx.size(MS_CLI, 600))]
+    for sc in r6 + r6ms:
+        ctx.bump("family:" + sc["world"]["family"])
+    S.run_scenarios(ctx, r6, oracle)
+    S.run_scenarios_ms(ctx, r6ms, oracle_ms)
 
 
 def replay(ctx, path):
